@@ -130,7 +130,11 @@ pub fn gen(tier: Tier, r: &mut Rng, emit: &mut dyn FnMut(String)) {
     let n = if tier == Tier::Quick { 2_500 } else { 12_000 };
     for i in 0..n {
         let o = if i % 3 == 0 { GenOpts { block_scalars: true, comments: true, breaks: true, anchors: false, multidoc: false, max_depth: 3 } } else { ALL };
-        let ps = {
+        // one stream in eight: indentless sequences under the first / middle / last key of compact
+        // mappings, at several nesting depths, with following sibling keys
+        let ps = if i % 8 == 5 {
+            indentless_stream(r)
+        } else {
             let mut g = Gen::new(r, o);
             g.stream()
         };
